@@ -239,3 +239,31 @@ Fixpoint pot_complement (fuel : nat) (cells : N -> option cell) (a : ast) : res 
           end
       end
   end.
+
+(* ---- the loop of ConstructVolumeT4.construct_volume ("treat complements"):
+   every cell of the dictionary in its order, geometry replaced in place; an
+   exception aborts the conversion ---- *)
+Definition table := list (N * cell).
+
+Definition lookup (tbl : table) (n : N) : option cell :=
+  match find (fun p => N.eqb (fst p) n) tbl with Some p => Some (snd p) | None => None end.
+
+Definition update (tbl : table) (n : N) (g : ast) : table :=
+  map (fun p => if N.eqb (fst p) n then (fst p, mkCell g (c_lattice (snd p))) else p) tbl.
+
+Fixpoint eliminate_loop (fuel : nat) (order : list N) (tbl : table) : res table :=
+  match order with
+  | [] => Ok tbl
+  | n :: rest =>
+      match lookup tbl n with
+      | None => Err EKey
+      | Some c =>
+          match pot_complement fuel (lookup tbl) (c_geom c) with
+          | Err e => Err e
+          | Ok g => eliminate_loop fuel rest (update tbl n g)
+          end
+      end
+  end.
+
+Definition eliminate_all (fuel : nat) (tbl : table) : res table :=
+  eliminate_loop fuel (map fst tbl) tbl.
